@@ -102,7 +102,8 @@ func (s *xscanner) readTextLiteral(buf *bytes.Buffer) {
 		if ch == '"' && !escaped {
 			break
 		} else if ch == '\\' {
-			escaped = true
+			// a backslash escapes the next character, unless it is itself escaped
+			escaped = !escaped
 		} else {
 			escaped = false
 		}
